@@ -27,6 +27,33 @@ def SHA256(seq):
     return be_bytes(uf("SHA256", SEQ, z3.BitVecSort(256))(seq), 32)
 
 
+def g_split_off(ex, a, callee, canon):
+    p = a[0]
+    while isinstance(p.get(), Ptr):
+        p = p.get()
+    v = p.get()
+    n = len(v.f)
+    at = a[1]
+    ca = at.concrete()
+    if ca is None:
+        ca = ex.concretize(at.t, list(range(0, n + 1)))
+        if ca is None:
+            raise PathPanic("split_off: `at` split index is out of bounds")
+    if ca > n:
+        raise PathPanic("split_off: `at` split index is out of bounds")
+    tail = ListV(list(v.f[ca:]))
+    p.set(ListV(list(v.f[:ca])))
+    return tail
+
+
+def g_list_reverse(ex, a, callee, canon):
+    p = a[0]
+    while isinstance(p.get(), Ptr):
+        p = p.get()
+    p.set(ListV(list(reversed(p.get().f))))
+    return UNIT
+
+
 def native_checksig():
     ops = []
     for kind, m, n in (("p2pk", 1, 1), ("p2pkh", 1, 1), ("multisig", 2, 3), ("multisig", 1, 1), ("multisig", 3, 3)):
@@ -410,4 +437,199 @@ def q_checksig(env, max_n=2, flags=(0x41, 0x01, 0xc3, 0x40), part="all", min_n=1
                         report(f"{what}: rejects although every signature matches a distinct key in order", "spend signed through the API")
                 finish(qr, ex)
     qr.samples.append({"obligation": qr.name, "opcodes": ["OP_CHECKSIG", "OP_CHECKSIGVERIFY", "OP_CHECKMULTISIG", "OP_CHECKMULTISIGVERIFY"], "multisig": f"1 <= m <= n <= {max_n}"})
+    return qr
+
+
+def q_interp_tx_total(env, name=None):
+    """C16 with a spending context: Interpreter::from_transaction on any input index, and the signature-opcode step from states reachable
+    through spliced conditional branches (the code-separator offset counts executed elements, so it can exceed the length of the locking
+    script): a state or an error, never a panic."""
+    qr = QResult(name or "interp_tx_total")
+    P = env.P
+    P.enums.setdefault("Sign", {"Minus": 0, "NoSign": 1, "Plus": 2})
+    PK, FORMAT_OK, ON_CURVE, KIND, KINDS = point_models()
+    PRE = lambda fl: uf("SIGHASH_PREIMAGE", z3.BitVecSort(8), SEQ)(fl)
+
+    def m_preimage(ex, a, callee, canon):
+        if not ex.decide(ex.fresh("preimage_ok", z3.BoolSort())):
+            return err("sighash")
+        pre = PRE(z3.BitVecVal(a[2].discr, 8))
+        if not hasattr(ex, "len_vars"):
+            ex.len_vars = {}
+        ex.len_vars[pre.get_id()] = z3.BitVec(f"preimage_len_{a[2].discr}", 64)
+        ex.__dict__.setdefault("_keep_alive", []).append(pre)
+        return ok(Bytes(pre))
+
+    def m_verify_prehashed(ex, a, callee, canon):
+        return ok() if ex.decide(ex.fresh("verify_ok", z3.BoolSort())) else err("ecdsa::Error")
+
+    def m_opaque_string(ex, a, callee, canon):
+        return Opaque("String")
+
+    def m_list_range_from(ex, a, callee, canon):
+        v = deref(a[0])
+        lo = deref(a[1]).f[0].concrete()
+        if lo is None or lo > len(v.f):
+            raise PathPanic("range start index out of range for slice")
+        return Ptr([ListV(list(v.f[lo:]))], 0)
+
+    def m_script_from_bytes(ex, a, callee, canon):
+        if ex.decide(ex.fresh("script_parses", z3.BoolSort())):
+            return ok(Struct("Script", [ListV([])]))
+        return err("script")
+
+    def m_script_to_bytes(ex, a, callee, canon):
+        s = ex.fresh("script_bytes", SEQ)
+        if not hasattr(ex, "len_vars"):
+            ex.len_vars = {}
+        ex.len_vars[s.get_id()] = ex.fresh("script_len", z3.BitVecSort(64))
+        ex.__dict__.setdefault("_keep_alive", []).append(s)
+        return Bytes(s)
+
+    R = re.compile
+    CM = [(R(r"sighash_preimage_impl$"), m_preimage), (R(r"VerifyPrimitive<.*>>::verify_prehashed$"), m_verify_prehashed), (R(r"(^|::)Script::to_asm_string$|to_hex$"), m_opaque_string),
+          (R(r"(^|::)_print$|^std::io::_print$"), lambda ex, a, callee, canon: UNIT), (R(r"^<Vec<(\w+::)*ScriptBit> as Index<RangeFrom<usize>>>::index$"), m_list_range_from),
+          (R(r"(^|::)Script::from_bytes$"), m_script_from_bytes), (R(r"(^|::)Script::to_bytes$"), m_script_to_bytes),
+          (R(r"^Vec::split_off$"), g_split_off), (R(r"^core::slice::<impl \[Vec<u8>\]>::reverse$"), g_list_reverse)]
+    smod = [m for m in SMODELS if m[1].__name__ not in ("m_point_from_bytes", "m_vk_from_point", "m_affine_from_point", "m_ctoption_unwrap", "m_from_sec1", "m_verify_prehashed")]
+    base = [m for m in MODELS if not m[1].__name__.startswith(("m_sha256", "m_sha256d", "m_hash160", "m_sha512", "m_ripemd160", "m_sha1", "m_checksig"))]
+
+    def native(ops):
+        req = {"tx": {"version": 1, "locktime": 0, "inputs": [], "outputs": []}, "ops": ops}
+        nat = {p: C.Native.run(req, p) for p in ("debug", "release")}
+        bad = any(isinstance(o, dict) and ("panic" in o or "toolerror" in o) for v in nat.values() for o in v)
+        return {"request": req, "op_index": 0, "expected": "a state or an error (no panic)", "native": nat, "reproduced": bad}
+
+    def tx_of(k_in, u, L):
+        ins = []
+        for i in range(k_in):
+            ins.append(mk_struct(P, "TxIn", prev_tx_id=Bytes(seq_of([z3.BitVec(f"txid{i}_{j}", 8) for j in range(32)])), vout=Int(z3.BitVec(f"vout{i}", 32), "u32"),
+                                 unlocking_script=Struct("Script", [ListV([Enum("ScriptBit", "Push", P.enums["ScriptBit"]["Push"], [Bytes(seq_of([z3.BitVec(f"u{i}_{j}", 8)]))]) for j in range(u)])]),
+                                 sequence=Int(z3.BitVec(f"seq{i}", 32), "u32"),
+                                 locking_script=some(Struct("Script", [ListV([Enum("ScriptBit", "Push", P.enums["ScriptBit"]["Push"], [Bytes(seq_of([z3.BitVec(f"l{i}_{j}", 8)]))]) for j in range(L)])])),
+                                 satoshis=some(Int(z3.BitVec(f"value{i}", 64), "u64"))))
+        hc = mk_struct(P, "HashCache", hash_inputs=none(), hash_sequence=none(), hash_outputs=none())
+        return mk_struct(P, "Transaction", version=Int(z3.BitVec("version", 32), "u32"), inputs=ListV(ins), outputs=ListV([]), n_locktime=Int(z3.BitVec("locktime", 32), "u32"), hash_cache=hc)
+
+    # ---- T1: Interpreter::from_transaction(tx, index) for every index
+    f_ft = env.fn("interpreter::Interpreter::from_transaction")
+    for k_in in (0, 1, 2):
+        qr.cases += 1
+        ex = Exec(P, CM + PK + smod + HMODELS + base)
+
+        def setup(ex, k_in=k_in):
+            ctx = Ctx()
+            ctx.idx = z3.BitVec("input_index", 64)
+            return f_ft, [Ptr([tx_of(k_in, 1, 2)], 0), Int(ctx.idx, "usize")], ctx
+        try:
+            res = ex.explore(setup)
+        except Unsupported as e:
+            qr.undecided.append(f"from_transaction with {k_in} inputs: {e}")
+            continue
+        for r in res:
+            qr.paths += 1
+            if r.kind != "panic":
+                continue
+            s = z3.Solver()
+            for cnd in r.pc:
+                s.add(cnd)
+            qr.queries += 1
+            if s.check() != z3.sat:
+                continue
+            idx = min(s.model().eval(r.ctx.idx, model_completion=True).as_long(), 1000)
+            item = native([{"op": "interp_tx", "unlock_asm": "00", "lock_asm": "OP_1", "index": max(idx, 1)}])
+            item["message"] = f"Interpreter::from_transaction panics for input index {idx} of a transaction with {k_in} input(s): {r.msg.split(' @')[0][:70]}"
+            if item["reproduced"]:
+                if not qr.violations:
+                    qr.violations.append(item)
+            else:
+                qr.undecided.append(item["message"] + " — not reproduced natively")
+        finish(qr, ex)
+
+    # ---- T2: signature-opcode step with a code-separator offset beyond the locking script (reachable through spliced branches)
+    f = env.fn("script_matching::<impl interpreter::Interpreter>::match_opcode")
+    u, L = 1, 3
+    for op in ("OP_CHECKSIG", "OP_CHECKMULTISIG"):
+        opbyte = P.enums["OpCodes"][op]
+        for cs in (u + L, u + L + 1, u + L + 3):
+            qr.cases += 1
+            ex = Exec(P, CM + PK + smod + HMODELS + base, max_paths=20000)
+
+            def setup(ex, cs=cs, op=op, opbyte=opbyte):
+                ctx = Ctx()
+                sig = [z3.BitVec(f"sig_{i}", 8) for i in range(8)] + [z3.BitVecVal(0x41, 8)]
+                pk = [z3.BitVec(f"pk_{i}", 8) for i in range(33)]
+                items = [sig, pk] if op == "OP_CHECKSIG" else [[z3.BitVec("dummy", 8)], sig, [z3.BitVecVal(1, 8)], pk, [z3.BitVecVal(1, 8)]]
+                st = mk_struct(P, "State", stack=ListV([Bytes(seq_of(it)) for it in items]), alt_stack=ListV([]), status=Enum("Status", "Running", P.enums["Status"]["Running"]),
+                               executed_opcodes=ListV([]), codeseparator_offset=Int(cs, "usize"))
+                txs = some(mk_struct(P, "TxScript", tx=tx_of(1, u, L), input_index=Int(0, "usize")))
+                return f, [Int(cs, "usize"), Ptr([Enum("OpCodes", op, opbyte)], 0), Ptr([st], 0), txs], ctx
+            try:
+                res = ex.explore(setup)
+            except Unsupported as e:
+                qr.undecided.append(f"{op} with code-separator offset {cs}: {e}")
+                continue
+            for r in res:
+                qr.paths += 1
+                if r.kind != "panic":
+                    continue
+                s = z3.Solver()
+                s.set("timeout", 30000)
+                for cnd in r.pc:
+                    s.add(cnd)
+                qr.queries += 1
+                if s.check() == z3.unsat:
+                    continue
+                lock = "OP_1 OP_IF OP_NOP OP_NOP OP_NOP OP_ENDIF OP_CODESEPARATOR 0279be667ef9dcbbac55a06295ce870b07029bfcdb2dce28d959f2815b16f81798 " + ("OP_CHECKSIG" if op == "OP_CHECKSIG" else "OP_1 OP_CHECKMULTISIG")
+                unlock = "300602010102010141" if op == "OP_CHECKSIG" else "OP_0 300602010102010141 OP_1"
+                if op == "OP_CHECKMULTISIG":
+                    lock = "OP_1 OP_IF OP_NOP OP_NOP OP_NOP OP_NOP OP_NOP OP_ENDIF OP_CODESEPARATOR 0279be667ef9dcbbac55a06295ce870b07029bfcdb2dce28d959f2815b16f81798 OP_1 OP_CHECKMULTISIG"
+                    unlock = "OP_0 300602010102010141 OP_1"
+                item = native([{"op": "interp_tx", "unlock_asm": unlock, "lock_asm": lock}])
+                item["message"] = f"{op}: the step panics when the code-separator offset ({cs}) exceeds unlocking + locking script length ({u}+{L}), a state reached when a conditional branch executed before the separator: {r.msg.split(' @')[0][:70]}"
+                if item["reproduced"]:
+                    if not any(v["message"].startswith(op) for v in qr.violations):
+                        qr.violations.append(item)
+                else:
+                    qr.undecided.append(item["message"] + " — not reproduced natively: " + json.dumps(item["native"])[:200])
+            finish(qr, ex)
+    # ---- T3: OP_CHECKMULTISIG with declared counts that exceed the stack
+    opbyte = P.enums["OpCodes"]["OP_CHECKMULTISIG"]
+    for depth in (1, 2, 3):
+        qr.cases += 1
+        ex = Exec(P, CM + PK + smod + HMODELS + base, max_paths=20000)
+
+        def setup(ex, depth=depth):
+            ctx = Ctx()
+            ctx.items = [[z3.BitVec(f"s{i}", 8)] for i in range(depth)]
+            st = mk_struct(P, "State", stack=ListV([Bytes(seq_of(it)) for it in ctx.items]), alt_stack=ListV([]), status=Enum("Status", "Running", P.enums["Status"]["Running"]),
+                           executed_opcodes=ListV([]), codeseparator_offset=Int(0, "usize"))
+            txs = some(mk_struct(P, "TxScript", tx=tx_of(1, u, L), input_index=Int(0, "usize")))
+            return f, [Int(0, "usize"), Ptr([Enum("OpCodes", "OP_CHECKMULTISIG", opbyte)], 0), Ptr([st], 0), txs], ctx
+        try:
+            res = ex.explore(setup)
+        except Unsupported as e:
+            qr.undecided.append(f"OP_CHECKMULTISIG on a stack of {depth} one-byte items: {e}")
+            continue
+        for r in res:
+            qr.paths += 1
+            if r.kind != "panic" or any("declared key or signature count" in v["message"] for v in qr.violations):
+                continue
+            s = z3.Solver()
+            for cnd in r.pc:
+                s.add(cnd)
+            qr.queries += 1
+            if s.check() != z3.sat:
+                continue
+            m = s.model()
+            vals = [m.eval(it[0], model_completion=True).as_long() for it in r.ctx.items]
+            asm = " ".join(("OP_0" if v == 0 else "%02x" % v) for v in vals)
+            item = native([{"op": "interp_tx", "unlock_asm": asm, "lock_asm": "OP_CHECKMULTISIG"}])
+            item["message"] = f"OP_CHECKMULTISIG panics when the declared key or signature count exceeds the stack (stack {['%02x' % v for v in vals]}): {r.msg.split(' @')[0][:70]}"
+            if item["reproduced"]:
+                qr.violations.append(item)
+            else:
+                qr.undecided.append(item["message"] + " — not reproduced natively: " + json.dumps(item["native"])[:200])
+        finish(qr, ex)
+    qr.samples.append({"obligation": qr.name, "parts": ["Interpreter::from_transaction x input index", "OP_CHECKSIG / OP_CHECKMULTISIG step x code-separator offset up to length + 3"]})
     return qr
